@@ -108,7 +108,7 @@ def ref_dykstra(specs, x0, max_sweeps=20000, stop=1e-30):
 
 class Rec:
     """one recorded call of the real dykstra"""
-    __slots__ = ("x", "x0", "calls", "norms", "sweeps", "cI_hist", "stopped", "max_iter", "tol", "p", "consistent", "P")
+    __slots__ = ("x", "x0", "calls", "norms", "sweeps", "cI_hist", "stopped", "stopped_rec", "max_iter", "tol", "p", "consistent", "P")
 
 
 def record_call(real_dykstra, P, x0, max_iter=None, tol=None):
@@ -171,7 +171,11 @@ def record_call(real_dykstra, P, x0, max_iter=None, tol=None):
             hist.append(float(cI))
     r.consistent = ok
     r.cI_hist = hist
-    r.stopped = bool(hist) and (hist[-1] < r.tol)
+    r.stopped_rec = bool(hist) and (hist[-1] < r.tol)
+    # what a caller can observe: leaving the loop before the sweep cap means the routine decided its rule was met
+    # (for the code as it is, `C15_stopped_of_sweeps_lt` proves the two notions agree)
+    r.stopped = r.stopped_rec or (0 < r.sweeps < r.max_iter and r.tol == r.tol and bool(np.all(np.isfinite(r.x)))
+                                  and not (ok and hist and hist[-1] != hist[-1]))
     return r
 
 
